@@ -218,6 +218,12 @@ func handle[C any](col *stats.Collector, prop, test string, c C, res Result) str
 		col.Oracle("held")
 		return ""
 	}
+	if strings.HasPrefix(res.Sig, "harness:") {
+		// the harness could not evaluate the case (compile failure, engine disagreement):
+		// that is never a verdict about the property. The driver maps it to exit 2.
+		col.Oracle("harness-error")
+		return fmt.Sprintf("HARNESS-ERROR property=%s sig=%s: %s", prop, res.Sig, res.Msg)
+	}
 	if text, isKnown := IsKnown(prop, res.Sig); isKnown {
 		col.KnownFinding(fmt.Sprintf("KNOWN-FINDING: property=%s sig=%s %s", prop, res.Sig, text))
 		col.Exclude(res.Sig)
@@ -250,7 +256,9 @@ func RunRapidWith[C any](t *testing.T, col *stats.Collector, ck Check[C]) {
 		c := ck.Gen(rt)
 		res := ck.Run(c)
 		if msg := handle(col, ck.Prop, ck.Test, c, res); msg != "" {
-			last = replayPath(ck.Prop, ck.Test)
+			if !strings.HasPrefix(msg, "HARNESS-ERROR") {
+				last = replayPath(ck.Prop, ck.Test)
+			}
 			rt.Fatalf("%s", msg)
 		}
 	})
@@ -264,7 +272,9 @@ func RunEnum[C any](t *testing.T, col *stats.Collector, prop, test string, cases
 	cases(func(c C) bool {
 		res := run(c)
 		if msg := handle(col, prop, test, c, res); msg != "" {
-			fmt.Printf("VIOLATION property=%s replay=%s\n", prop, replayPath(prop, test))
+			if !strings.HasPrefix(msg, "HARNESS-ERROR") {
+				fmt.Printf("VIOLATION property=%s replay=%s\n", prop, replayPath(prop, test))
+			}
 			t.Errorf("%s", msg)
 			return false
 		}
